@@ -346,13 +346,13 @@ Qed.
 Lemma like_pct_nil s : like [pct] s = true.
 Proof.
   cbn [like]. rewrite beqb_refl. induction s as [|x s IH]; [reflexivity|].
-  cbn [like is_nil orb]. exact IH.
+  cbn [like is_nil andb orb]. rewrite andb_false_r. cbn [orb]. exact IH.
 Qed.
 
 Lemma like_cons_lit c p s :
-  beqb c pct = false ->
-  like (c :: p) s = match s with [] => false | x :: s' => (beqb c usc || eq_nocase c x) && like p s' end.
-Proof. intros H. cbn [like]. rewrite H. reflexivity. Qed.
+  beqb c pct = false -> beqb c usc = false ->
+  like (c :: p) s = match s with [] => false | x :: s' => eq_nocase c x && like p s' end.
+Proof. intros H1 H2. cbn [like]. rewrite H1, H2. reflexivity. Qed.
 
 Lemma like_prefix_exact p k :
   no_like_special p = true -> case_safe p k = true -> like_prefix p k = is_prefix p k.
@@ -361,9 +361,9 @@ Proof.
   - cbn [app is_prefix]. apply like_pct_nil.
   - cbn [no_like_special forallb] in HS. apply andb_true_iff in HS. destruct HS as [Hc HS].
     apply andb_true_iff in Hc. destruct Hc as [Hp Hu]. apply negb_true_iff in Hp, Hu.
-    cbn [app]. rewrite like_cons_lit by exact Hp. destruct k as [|x k]; [reflexivity|].
+    cbn [app]. rewrite like_cons_lit by assumption. destruct k as [|x k]; [reflexivity|].
     cbn [case_safe] in HC. apply andb_true_iff in HC. destruct HC as [H1 HC].
-    cbn [is_prefix]. rewrite Hu. cbn [orb]. rewrite (IH k HS HC). f_equal.
+    cbn [is_prefix]. rewrite (IH k HS HC). f_equal.
     destruct (beqb c x) eqn:E.
     + apply beqb_eq in E. subst. unfold eq_nocase. apply beqb_refl.
     + rewrite orb_false_r in H1. apply negb_true_iff in H1. exact H1.
@@ -661,4 +661,125 @@ Proof.
     { apply Nat.leb_le. rewrite firstn_length. lia. }
     cbn. auto.
   - apply Nat.ltb_ge in T. destruct (max <=? length (firstn max a)); cbn; auto.
+Qed.
+
+(* ============================================================ versions / uploads ========= *)
+(* ---- paging by entry identity: the marker of a page names its last entry ---- *)
+Section FollowIdent.
+  Context {A : Type} (mark : A -> A -> bool) (Hmark : forall a b, mark a b = true <-> a = b).
+
+  Lemma after_first_app l1 e l2 : ~ In e l1 -> after_first (mark e) (l1 ++ e :: l2) = l2.
+  Proof.
+    induction l1 as [|x l1 IH]; intros Hn; cbn [app after_first].
+    - assert (mark e e = true) as -> by (apply Hmark; reflexivity). reflexivity.
+    - destruct (mark e x) eqn:E.
+      + apply Hmark in E. subst. exfalso. apply Hn. left; reflexivity.
+      + apply IH. intros H. apply Hn. right; exact H.
+  Qed.
+
+  Definition ident_after (l : list A) (marker : option A) : list A :=
+    match marker with None => l | Some m => after_first (mark m) l end.
+
+  Lemma follow_ident_all l max :
+    NoDup l -> 1 <= max -> forall fuel marker,
+    (exists P, l = P ++ ident_after l marker) -> length (ident_after l marker) < fuel ->
+    follow_ident mark fuel l marker max = ident_after l marker.
+  Proof.
+    intros ND Hm. induction fuel as [|fuel IH]; intros marker [P HP] Hlen; [lia|].
+    cbn [follow_ident]. fold (ident_after l marker). set (a := ident_after l marker) in *.
+    destruct (max <? length a) eqn:T.
+    - apply Nat.ltb_lt in T.
+      assert (a <> []) as Ha by (intros E; rewrite E in T; cbn in T; lia).
+      destruct (last_opt_firstn_some a max Hm Ha) as [e L]. rewrite L.
+      destruct (last_opt_app _ _ L) as [l1 E1].
+      pose proof (firstn_skipn max a) as FS. pose proof (skipn_length max a) as SL.
+      remember (skipn max a) as tl eqn:Etl. clear Etl.
+      assert (a = l1 ++ e :: tl) as Ea by (rewrite <- FS, E1, <- app_assoc; reflexivity).
+      assert (ident_after l (Some e) = tl) as HA.
+      { cbn [ident_after]. rewrite HP, Ea, app_assoc. apply after_first_app.
+        rewrite HP, Ea, app_assoc in ND. apply NoDup_remove_2 in ND. intros H. apply ND. apply in_or_app; left; exact H. }
+      rewrite IH.
+      + rewrite HA. exact FS.
+      + exists (P ++ l1 ++ [e]). rewrite HA. rewrite HP at 1. rewrite Ea.
+        rewrite <- !app_assoc. reflexivity.
+      + rewrite HA. lia.
+    - apply Nat.ltb_ge in T. apply firstn_all2. exact T.
+  Qed.
+End FollowIdent.
+
+Lemma ventry_eqb_eq a b : ventry_eqb a b = true <-> a = b.
+Proof.
+  destruct a as [k v d|p], b as [k' v' d'|p']; cbn; try (split; [discriminate | congruence]).
+  - rewrite !andb_true_iff, !bytes_eqb_eq, Bool.eqb_true_iff. split; [intros [[-> ->] ->]; reflexivity | intros H; inversion H; auto].
+  - rewrite bytes_eqb_eq. split; congruence.
+Qed.
+
+Lemma existsb_ventry e seen : existsb (ventry_eqb e) seen = true <-> In e seen.
+Proof.
+  rewrite existsb_exists. split.
+  - intros (x & Hx & E). apply ventry_eqb_eq in E. subst; exact Hx.
+  - intros H. exists e. split; [exact H | apply ventry_eqb_eq; reflexivity].
+Qed.
+
+Lemma dedup_In l : forall seen e, In e (dedup_ventries l seen) <-> In e l /\ ~ In e seen.
+Proof.
+  induction l as [|x l IH]; intros seen e; cbn [dedup_ventries]; [cbn; tauto|].
+  destruct (existsb (ventry_eqb x) seen) eqn:E.
+  - apply existsb_ventry in E. rewrite IH. cbn [In]. split; [tauto|]. intros [[<-|H] Hn]; [contradiction | tauto].
+  - assert (~ In x seen) as Hx by (intros H; apply existsb_ventry in H; congruence).
+    cbn [In]. rewrite IH. cbn [In]. split.
+    + intros [<-|[H Hn]]; [tauto|]. split; [tauto|]. intros H1; apply Hn; right; exact H1.
+    + intros [[<-|H] Hn]; [left; reflexivity|].
+      destruct (ventry_eqb x e) eqn:Ex; [apply ventry_eqb_eq in Ex; left; exact Ex|].
+      right. split; [exact H|]. intros [->|H1]; [|contradiction].
+      rewrite (proj2 (ventry_eqb_eq e e) eq_refl) in Ex. discriminate.
+Qed.
+
+Lemma dedup_NoDup l : forall seen, NoDup (dedup_ventries l seen).
+Proof.
+  induction l as [|x l IH]; intros seen; cbn [dedup_ventries]; [constructor|].
+  destruct (existsb (ventry_eqb x) seen); [apply IH|]. constructor; [|apply IH].
+  intros H. apply dedup_In in H. destruct H as [_ H]. apply H. left; reflexivity.
+Qed.
+
+Lemma insert_by_In {A} (cmp : A -> A -> comparison) x l y : In y (insert_by cmp x l) <-> y = x \/ In y l.
+Proof.
+  induction l as [|a l IH]; cbn [insert_by In]; [split; [intros [<-|[]]; auto | intros [->|[]]; auto]|].
+  destruct (cmp x a); cbn [In].
+  - split; [intros [<-|H]; auto | intros [->|H]; auto].
+  - split; [intros [<-|H]; auto | intros [->|H]; auto].
+  - rewrite IH. split; [intros [<-|[->|H]]; auto | intros [->|[<-|H]]; auto].
+Qed.
+Lemma sort_by_In {A} (cmp : A -> A -> comparison) l y : In y (sort_by cmp l) <-> In y l.
+Proof.
+  induction l as [|a l IH]; [cbn; tauto|].
+  change (sort_by cmp (a :: l)) with (insert_by cmp a (sort_by cmp l)).
+  rewrite insert_by_In, IH. cbn [In]. split; intros [H|H]; auto.
+Qed.
+
+Lemma spec_ventries_In rows prefix delim e :
+  In e (spec_ventries rows prefix delim) <->
+  exists r, In r rows /\ is_prefix prefix (vr_key r) = true /\ vclassify prefix delim r = e.
+Proof.
+  unfold spec_ventries. rewrite dedup_In, in_map_iff. split.
+  - intros [(r & E & Hr) _]. apply sort_by_In in Hr. apply filter_In in Hr. exists r. tauto.
+  - intros (r & H1 & H2 & E). split; [|intros []]. exists r. split; [exact E|].
+    apply sort_by_In. apply filter_In. auto.
+Qed.
+
+Lemma spec_uentries_In ups prefix delim e :
+  In e (spec_uentries ups prefix delim) <->
+  exists r, In r ups /\ is_prefix prefix (fst r) = true /\ uclassify prefix delim r = e.
+Proof.
+  unfold spec_uentries. rewrite dedup_In, in_map_iff. split.
+  - intros [(r & E & Hr) _]. apply sort_by_In in Hr. apply filter_In in Hr. exists r. tauto.
+  - intros (r & H1 & H2 & E). split; [|intros []]. exists r. split; [exact E|].
+    apply sort_by_In. apply filter_In. auto.
+Qed.
+
+Lemma ident_paging_partition (l : list ventry) max :
+  NoDup l -> 1 <= max -> follow_ident ventry_eqb (S (length l)) l None max = l.
+Proof.
+  intros ND Hm.
+  apply (follow_ident_all ventry_eqb ventry_eqb_eq l max ND Hm (S (length l)) None); [exists []; reflexivity | cbn; lia].
 Qed.
